@@ -262,6 +262,7 @@ func runBisyncSim(r *Run, prop string, cfg PipeCfg, st *Stream, maxCrashes int, 
 	ps.startIncarnation()
 	forced := false
 	idleRestarts := 0
+	resyncs := 0
 	for r.BeginStep() {
 		r.Settle()
 		ps.absorb()
@@ -328,6 +329,35 @@ func runBisyncSim(r *Run, prop string, cfg PipeCfg, st *Stream, maxCrashes int, 
 				o.observe()
 				ps.startIncarnation()
 			}})
+			if ph == 1 && resyncs < 1 && len(o.units) >= 4 {
+				// a full resynchronisation under the same replication id: the link is stopped, a snapshot taken at a later
+				// source offset R is loaded (everything up to R is on the target now) and the root checkpoint moves to R.
+				// The recovery records of the incremental phase before it stay where they are (stale); the unit numbering of
+				// the link starts again. From here on the resume point is R or a unit committed behind it.
+				acts = append(acts, pipeAction{"full-resync", 6, func() {
+					resyncs++
+					crashes++
+					r.W.Fault("full_resync")
+					ps.shutdown()
+					o.observe()
+					c := o.contiguous()
+					if lc := o.lastCommitted(); lc > c {
+						c = lc
+					}
+					if c >= len(o.units)-2 {
+						ps.startIncarnation()
+						return
+					}
+					j := c + 1 + r.Sched().Choose("resync_to", len(o.units)-2-c)
+					for i := 0; i <= j; i++ {
+						o.committed[i] = true
+					}
+					o.root = o.units[j].endOff
+					ps.plantRootCheckpoint(o.root)
+					r.Logf("FULL RESYNC: root checkpoint moved to %d (end of unit %d)", o.root, j)
+					ps.startIncarnation()
+				}})
+			}
 			// graceful stop + start with no traffic in between
 			if ph == 1 && idleRestarts < 2 {
 				acts = append(acts, pipeAction{"stop-start", 1, func() {
